@@ -285,12 +285,16 @@ Proof.
   unfold send_or_park. destruct (do_send c s x fl) eqn:E; [eapply do_send_td; eauto|auto].
 Qed.
 
+Lemma close_table_per c t : f_table c = TPerSsrc -> close_table c t = t.
+Proof. unfold close_table. intros ->. reflexivity. Qed.
+
 (* the table and the dead list after one step *)
 Lemma step_td c s l s' : step c s l = Some s' ->
   match l with
   | Call _ (OBind x) => table s' = bind_table c x (table s) /\ dead s' = zremove x (dead s)
   | Call _ (OUnbind x) => table s' = unbind_table c x (table s) /\ dead s' = x :: zremove x (dead s)
   | Call _ (OTraffic x) => table s' = tbump (key c x) (table s) /\ dead s' = dead s
+  | Call _ OClose => table s' = close_table c (table s) /\ dead s' = dead s
   | _ => table s' = table s /\ dead s' = dead s
   end.
 Proof.
@@ -352,6 +356,7 @@ Proof.
   - apply ainv_bind; auto.
   - apply ainv_unbind; auto.
   - apply ainv_bump; auto.
+  - rewrite close_table_per; auto.
 Qed.
 
 Lemma ainv_init c : f_table c = TPerSsrc -> AInv (init c).
@@ -521,6 +526,8 @@ Proof.
       destruct (f_site c) eqn:FS; auto. apply sop_uinv; auto. discriminate.
     + (* Close *)
       destruct I as [I1 I3 I4 I5 I6].
+      assert (IC : f_table c = TPerSsrc -> ainv (close_table c (table s)) (dead s))
+        by (intros HT; rewrite close_table_per; auto; apply I1; auto).
       destruct (match f_close c with CloseIdem => false | CloseRaw => closed s end); [constructor; auto|].
       destruct (_ && _); constructor; cbn; auto.
       intros u y b. destruct (Nat.eqb t u); [discriminate|apply I5].
@@ -875,6 +882,8 @@ Proof.
     + unfold unbind_table. destruct (f_unbind c); auto.
       destruct (f_table c); auto using nodup_tremove. repeat constructor. cbn; tauto.
     + rewrite fst_tbump; auto.
+    + unfold close_table. destruct (f_table c); auto. destruct (f_unbind c); auto.
+      repeat constructor. cbn; tauto.
   - destruct l as [t o|t|i|i|i|i]; cbn [step] in H.
     + destruct (bfind t (blocked s)) eqn:Bt; [discriminate|]. inversion H; subst; clear H.
       destruct o; cbn [call]; auto.
@@ -923,7 +932,7 @@ Lemma safe_instances :
   safe_cfg report_receiver_cfg = true /\ safe_cfg report_sender_cfg = true /\
   safe_cfg twcc_sender_cfg = true /\ safe_cfg intervalpli_cfg = true /\
   safe_cfg packetdump_cfg = true /\ safe_cfg pacing_cfg = true /\
-  safe_cfg flexfec_cfg = true /\ safe_cfg chain_cfg = true.
+  safe_cfg flexfec_cfg = true /\ safe_cfg chain_cfg = true /\ safe_cfg gcc_cfg = true.
 Proof. repeat split; reflexivity. Qed.
 
 (* rfc8888 (also after the fix) has no Unbind: reports about an unbound SSRC continue *)
@@ -965,7 +974,7 @@ Qed.
 
 (* gcc leaky bucket pacer: Close does not wait: a write after Close returned *)
 Lemma gcc_close_refuted : exists tr s,
-  run gcc_cfg (init gcc_cfg) tr = Some s /\ close_ret s = true /\ late_close s <> 0%nat.
+  run gcc_unfixed_cfg (init gcc_unfixed_cfg) tr = Some s /\ close_ret s = true /\ late_close s <> 0%nat.
 Proof.
   exists [Call 0 (OTraffic 1); LRecv 0; Call 0 OClose; LEmit 0].
   eexists. split; [vm_compute; reflexivity|]. cbn. split; [reflexivity|discriminate].
